@@ -609,10 +609,10 @@ func (x *TopicsIndex) scanSubscribers(topic string, d int, n *particle, subs *Su
 				x.gatherSharedSubscriptions(particle, subs)
 				x.gatherInlineSubscriptions(particle, subs)
 
-				if wild := particle.particles.get("#"); wild != nil && partKey != "+" {
+				if wild := particle.particles.get("#"); wild != nil {
 					x.gatherSubscriptions(topic, wild, subs) // also match any subs where filter/# is filter as per 4.7.1.2
 					x.gatherSharedSubscriptions(wild, subs)
-					x.gatherInlineSubscriptions(particle, subs)
+					x.gatherInlineSubscriptions(wild, subs)
 				}
 			}
 		}
